@@ -1,7 +1,7 @@
 """Free text for MANIFEST.json."""
 BASELINE_OFF = 'cd /repo && cargo test --workspace --no-fail-fast --offline'
-HOOK_COMMITS = []
-KANI_SERVES = []
+HOOK_COMMITS = ['529f906', 'aaa3a9d', 'e152e67', '7e70921']
+KANI_SERVES = ['C06', 'C07', 'C11', 'C13', 'C14', 'C15', 'C16']
 NOTES = ('Contract-based deductive verification (Verus, unbounded) of the real function bodies, extracted mechanically on every run; '
          'Kani on the compiled crates for float / byte-level clauses. exit 2 = undecided (lost anchor, unsupported construct, resource limit), never an alarm.')
 
@@ -10,7 +10,57 @@ NOT_APPLICABLE = {('C%02d' % i): PENDING for i in range(1, 21)}
 NOT_APPLICABLE['C20'] = ('every clause is about interleavings of tokio tasks contending for a Mutex and bounded mpsc channels (publish never blocks, per-subscriber order, '
                          'nothing after unsubscribe); Kani has no async/thread model and Verus would need the hub rewritten with its permission types, which would be a model, not the code (DESIGN.md 9)')
 
+def _t(level, note, technique, ref):
+    return dict(level=level, note=note, technique=technique, design_ref=ref)
+
+
+COMMON_NOTE = ('Trusted: the extractor and rewrite rules R0-R16 (function bodies are copied from /repo on every run; logging dropped, SmallVec=Vec, FxHashMap=HashMap, '
+               'for-loops turned into cursor loops), prelude stubs for std (integer ones re-proved by Kani), floats uninterpreted in Verus, Verus+Z3, Kani+CBMC. '
+               'Machine arithmetic: clocks < 2^62, event counters < 2^63. exit 2 = undecided, never an alarm.')
+
 TEXT = {
+    'C02': _t('Verus proves, for all states and all sequence numbers (no bound on history length: one-step contracts + invariant count == |packet log|), that every accounting '
+              'function of a link (register, cumulative ACK incl. the <=64 fast path and the retain path, per-packet SRTLA ACK, NAK, the three resets, take_batch) keeps the '
+              'in-flight count equal to the size of the set of held sequence numbers, retires exactly the stated set, leaves the link untouched for sequence numbers it does not hold, '
+              'and that a cumulative ACK leaves nothing at or below it (independent of earlier ACKs, via the log-above-high-water invariant).',
+              COMMON_NOTE + ' Dispatch across links (arrival link first, then one other holder) is covered by the shell unit when built.',
+              'deductive verification (Verus) of extracted real functions: representation invariant + exact set-valued postconditions', 'DESIGN.md 8 C02'),
+    'C06': _t('Verus proves for every window value and every in-flight count in 0..i32::MAX: range [1000,60000] preserved by every function taking the window, start/reset value 20000, '
+              'NAK = exactly -100 floored at 1000 (never increases), earned SRTLA ACK = +29 capped only when in-flight*1000 (saturating) exceeds the window (never decreases), global +1 capped, '
+              'fast-recovery entered only at <= 2000 and left only at >= 12000 or by reset. Time-based recovery (float cast) is decided by Kani on the real function.',
+              COMMON_NOTE, 'deductive verification (Verus) with exact-delta postconditions; Kani complete harness for the float part', 'DESIGN.md 8 C06'),
+    'C07': _t('Verus proves the registration state machine function by function for all states, indices, buffers and clock values: REG1 emitted (driver / immediate / build_reg1_for) only while no uplink '
+              'is registered and none is outstanding, marks exactly that uplink outstanding with a deadline of send+4000 ms and carries the adopted id; REG2 accepted only from the outstanding uplink '
+              'and only with >= 258 bytes (else whole-state identity), adopts bytes 2..258 and schedules exactly one broadcast; REG_ERR cancels; clear_pending abandons exactly when the deadline passed; '
+              'no inbound packet can make a REG1 outstanding. Packet layouts by Kani on the real builders.',
+              COMMON_NOTE + ' Not covered: the shell call site of build_reg1_for and "connected only on REG3" (shell unit), probing (RTT probes).',
+              'deductive verification (Verus) of the extracted state machine against transition contracts', 'DESIGN.md 8 C07'),
+    'C08': _t('Verus proves: the timed-out predicate is a function of (connected, last_received, timeout, establishment, grace) only - no stall/weak/loss field is an input; back-off delay in [5 s,120 s] '
+              'for every failure count; an attempt is allowed only >= 1 s (initial) / >= 5 s (later) after the previous one and always once 120 s have passed (no terminal state); '
+              'every reset returns the link to window 20000, zero in-flight, Registering; REG3 clean-up enters Warming with zero in-flight.',
+              COMMON_NOTE + ' Out of reach: "connected again within 30 s" and the housekeeping loop itself (liveness over the network).',
+              'deductive verification (Verus) of extracted real functions', 'DESIGN.md 8 C08'),
+    'C12': _t('Verus proves for any number of links, both modes, every configuration: select_connection_idx and everything it calls (stall gate, pull and latch updates, quality cache refresh, both selectors) '
+              'leave every field outside {stall flags/latches/counters, conn_timeout_ms, quality_cache} of every link unchanged (frame predicate generated from the struct definition, so new fields are in the frame by default), '
+              'and with the guard off every flag and latch is cleared.',
+              COMMON_NOTE, 'deductive verification (Verus): generated field-wise frame predicates carried through every callee contract', 'DESIGN.md 8 C12'),
+    'C13': _t('Verus proves the one-step contracts of the stall latch and the silence pull for all states and clock values: engages only with stale proof and (backlog or held pull), never without proof on record; '
+              'releases only after proof stayed fresh and the run lasted >= 2x the effective window; stale proof resets the run; the run start is only ever 0 / unchanged / now; pull releases only when heard again or disconnected; '
+              'effective window = clamp(4*sRTT,1000,ceiling) with ceiling winning below the floor; rising edges counted exactly.',
+              COMMON_NOTE + ' Float->int conversion of the smoothed RTT is uninterpreted in Verus; Kani harness covers the formula bit-precisely when built.',
+              'deductive verification (Verus) of extracted real functions against transition contracts', 'DESIGN.md 8 C13'),
+    'C16': _t('Kani proves on the real LinkCongestionState (built through a cfg-gated constructor) for EVERY pre-state satisfying wf, every observed rate and every clock value, loop-free (complete, no unwinding bound): '
+              'target in [100 kbit/s, 200 Mbit/s], floor until an RTT sample exists, lowered only in BackingOff or on entry to Drain, wf inductive; loss latch enters only after ewma > 0.55 held 4 s, clears only < 0.25. '
+              'One known finding (re-seed at the floor) is isolated in its own obligation.',
+              'Trusted: Kani+CBMC, exp model (finite, >=0, <=1 for x<=0), no-op tracing shim, modular stub of update_loss_ewma inside tick (frame proved by its own harness). '
+              'x0.85 / x0.75 / <=6% / <=2x numeric clauses are in the thorough tier only if CBMC terminates (float multiplier reasoning).',
+              'Kani complete harnesses (full symbolic pre-state, loop-free) on the real code', 'DESIGN.md 8 C16'),
+    'C17': _t('Verus proves on the real 200-line classify (four loops, four hash maps, any number of links, distinct ids): never weak while disconnected; under 100 kbit/s total (float sum as the code adds it) or with no connected link '
+              'everything is Bypassed/not weak and all history cleared; a delay verdict needs the streak to have been >= 1 before and >= 2 after; streak/probation follow the exact step relation (<= 14 stored, 15th verdict arms exactly 3 not-weak ticks); '
+              'enter threshold 250/n, leave threshold 750/n, LowShare only below the threshold, leaving only at >= 750/n.',
+              COMMON_NOTE + ' Floats (bitrate shares, RTT) are uninterpreted: what total_bps numerically is stays unproved.',
+              'deductive verification (Verus) of the extracted real function with loop invariants over four maps', 'DESIGN.md 8 C17'),
+
     'C15': dict(
         level='Every decoder of srtla-protocol is verified by Verus against a spec function of the input bytes for ALL byte strings of ANY length (no bound): '
               'panic freedom (index / overflow obligations), exact layouts (type at 0..2, SRT ACK number at 16..20, data = clear top bit, retransmit flag bit 2 of byte 4, '
